@@ -27,6 +27,16 @@ CHECKS = {
             "Breadth-first from reset over (micro-address, IR): each state is stepped with all 16 flag patterns x 6 ALU-latch outcomes x pending interrupt and, on IR-loading words, all 256 bytes. On the resulting graph: only programmed words from defined opcodes, address bits 8-5 equal IR bits 7-4, every path from a defined opcode (with defined second byte) reaches a fetch within 32 words, cycles only inside the MUL/DIV routines, and the never-completing first bytes are exactly 0x4C-0x4F, 0xE0-0xEF. MUL and DIV are executed concretely for all 65 536 operand pairs (and Rd=Rs) within their documented bounds. Thorough adds the full 512 x 256 product of forced states.",
             "Trusted: verif_force_control sets exactly the next-address inputs; defined opcode sets written in the harness. The level-interrupt input cannot be forced (constantly absent in this code base).",
             "DESIGN.md §4 C09"),
+    "C11": ("exploration",
+            "model-based stateful testing: mode-switching machine vs raw-edge twin with reference stepping (whole-machine equality after every operation), instruction-level model cross-check, enumerated termination over all 256 opcode bytes",
+            "Histories of raw edges, Assembly steps, key interrupts, continue, CPU reset and input changes run on two copies: the machine under test through Machine::trigger_key_clock with step-mode switches, and a twin that only ever receives single edges, an Assembly step being replaced by reference stepping written from the statement. After every operation both RawMachines must be equal; from clean boundaries the step is also compared with the instruction-level model (exactly one instruction). Steps are issued from every phase (mid-instruction, wait pending, interrupt pending, halted). Termination: for every opcode byte at PC in three phases; where the reference proves a fixed point (no boundary can ever come) the step runs on a helper thread and not returning within 10 s is a violation.",
+            "Trusted: ref_step in harness/src/props/c11.rs. Helper-thread guarding is budgeted (first 4000 termination-critical steps per run, which includes all enumerated ones); beyond that a hang ends in the watchdog (exit 2).",
+            "DESIGN.md §4 C11"),
+    "C13": ("exploration",
+            "robustness property testing (no panic / overflow under catch_unwind with debug assertions), proptest-generated stimulus scripts over template-built and random RAM images; libFuzzer target fz_machine in the thorough tier",
+            "Scripts of up to 120 calls (clock edges in both step modes, key interrupt, continue, cpu/master reset, load, input and board setters with arbitrary f32 bit patterns incl. NaN/inf/subnormal, direct Bus::read/write on all addresses, direct Board calls, limit setters) run on machines loaded with I/O-biased, uniform or mixed images under all stack sizes and program-size settings; every call is wrapped in catch_unwind in a build with overflow checks and debug assertions, every public getter is read after every call, and the machine is stepped once more at the end.",
+            "Trusted: Rust's panic/overflow detection as crash oracle. Stacksize::NotSet is never installed (documented precondition). Images above 240 bytes belong to C06.",
+            "DESIGN.md §4 C13"),
     "C08": ("exploration",
             "exhaustive enumeration against a documented function table (differential oracle)",
             "All 2 097 152 ALU input points are enumerated in both tiers and compared (result, carry, zero, negative) with a function table written from the documentation in 16-bit arithmetic; any single-entry deviation of the ALU is detected.",
